@@ -75,3 +75,8 @@ package internal
 //@ mode int
 //@ ensures val: *result == N
 //@ assigns nothing
+
+//@ func (*sm2/internal.SM2Point).IsInfinity
+//@ mode int
+//@ ensures val: result == isinf(pt(p))
+//@ assigns nothing
